@@ -192,6 +192,19 @@ fn dirname(fwd: bool) -> &'static str {
 
 const ELL: [&str; 5] = ["GRS80", "intl", "bessel", "WGS84", "GRS67"];
 
+/// The constant of `src/inner_op/tmerc.rs` (lines 77 and 131): a tuple is rejected when the
+/// normalised easting `|(x - x_0) / qs|` exceeds it, `qs = k_0 * a * Qn` (rectifying radius).
+const TMERC_STRIP_LIMIT: f64 = 2.623395162778;
+
+/// a * Qn, the rectifying radius, from the published (a, 1/f) of the named ellipsoid
+/// (Karney 2010 eq. 29; written here independently of the library).
+fn rectifying_radius(ellps: &str) -> f64 {
+    let (_, a, rf) = vcore::refmath::PROJ_ELLIPSOIDS.iter().find(|e| e.0 == ellps).expect("ellipsoid in the reference table");
+    let n = El::from_rf(*a, *rf).n3();
+    let n2 = n * n;
+    a * (1.0 + n2 / 4.0 + n2 * n2 / 64.0 + n2 * n2 * n2 / 256.0) / (1.0 + n)
+}
+
 const FAMILIES: [&str; 29] = [
     "noop", "addone", "adapt", "axisswap", "btmerc", "butm", "cart", "curvature", "deflection", "deformation", "dm", "dms",
     "geodesic", "gravity", "gridshift", "helmert", "laea", "latitude", "lcc", "merc", "webmerc", "molodensky", "omerc",
@@ -260,10 +273,11 @@ fn make_cfg(fam: &str, v: &[u16; 4], vf: &[f64; 4]) -> OpCfg {
         "tmerc" | "btmerc" => {
             let lon_c = -150.0 + 15.0 * pick(v[1], 21) as f64;
             let k = [1.0, 0.9996, 0.9999, 1.0002][pick(v[2], 4)];
-            let x0 = [0.0, 500000.0, -20000.0][pick(v[3], 3)];
+            let x0 = [0.0, 500000.0, -3.0e6, -20000.0][pick(v[3], 4)];
             let y0 = [0.0, 10000000.0, -5000.0][split(vf[0], 3).0];
             let lat0 = if fam == "tmerc" { [0.0, 40.0, -33.0][split(vf[1], 3).0] } else { 0.0 };
-            num = vec![lon_c, lat0, x0, y0, k];
+            // num[5]: the declared inverse strip limit in metres, |x - x_0| <= limit
+            num = vec![lon_c, lat0, x0, y0, k, TMERC_STRIP_LIMIT * k * rectifying_radius(ell)];
             if fam == "tmerc" {
                 format!("tmerc lon_0={lon_c} lat_0={lat0} k_0={k} x_0={x0} y_0={y0} ellps={ell}")
             } else {
@@ -273,7 +287,7 @@ fn make_cfg(fam: &str, v: &[u16; 4], vf: &[f64; 4]) -> OpCfg {
         "utm" | "butm" => {
             let zone = 1 + pick(v[1], 60);
             let south = v[2] % 2 == 1;
-            num = vec![-183.0 + 6.0 * zone as f64, 0.0, 500000.0, if south { 1.0e7 } else { 0.0 }, 0.9996];
+            num = vec![-183.0 + 6.0 * zone as f64, 0.0, 500000.0, if south { 1.0e7 } else { 0.0 }, 0.9996, TMERC_STRIP_LIMIT * 0.9996 * rectifying_radius(ell)];
             format!("{fam} zone={zone}{} ellps={ell}", if south { " south" } else { "" })
         }
         "merc" => {
@@ -767,16 +781,40 @@ fn gen_proj(cfg: &OpCfg, fwd: bool, sel: u8, u: &[f64; 6]) -> (P4, Cls, bool) {
             _ => (geo(any_geo(u)), Cls::Any, false),
         }
     } else {
-        let scale = k0 * 1.0; // planar limits below are expressed for a ~ 6.378e6 m and scaled by k_0
+        let _ = k0;
         let planar = |p: (f64, f64)| p4(p.0, p.1, z, t);
+        if matches!(fam, "tmerc" | "utm") && sel >= 5 {
+            // The inverse limit is a constant of the source, relative to x_0: every easting is classified
+            // by |x - x_0| / limit (the subtraction is the one the operator performs), with a 1e-9 guard band.
+            let limit = cfg.num[5].0;
+            let side = sgn(u[2]);
+            let (k, r) = split(u[3], 8);
+            let eps = [lerp(r, 1.0e-9, 1.0e-6), lerp(r, 1.0e-6, 1.0e-3), lerp(r, 1.0e-3, 0.2)][split(u[0], 3).0];
+            let dx = match k {
+                // just inside / just outside, both sides
+                0 | 1 => side * limit * (1.0 - eps),
+                2 | 3 => side * limit * (1.0 + eps),
+                // the raw easting (not the reduced one) at the limit: |x| = limit * (1 -+ eps)
+                4 => side * limit * (1.0 + sgn(r) * eps) - x0,
+                // |x - x_0| = limit -+ |x_0| (where a test forgetting x_0 changes its mind)
+                5 => side * (limit + sgn(r) * x0.abs() * (1.0 + sgn(u[0]) * eps)),
+                6 => side * limit * lerp(u[0], 0.0, 1.2),
+                _ => side * [lerp(u[0], 1.9e7, 4.0e7), lerp(u[0], 4.0e7, 1.0e9)][split(r, 2).0],
+            };
+            let x = x0 + dx;
+            let ratio = (x - x0).abs() / limit;
+            let cls = if ratio <= 1.0 - 1.0e-9 {
+                Cls::Interior
+            } else if ratio >= 1.0 + 1.0e-9 {
+                Cls::Far
+            } else {
+                Cls::Edge
+            };
+            return (planar((x, y0 + lerp(u[1], -1.0e7, 1.0e7))), cls, false);
+        }
         match sel {
             0..=4 => (geo(interior()), Cls::Interior, true),
             5 => match fam {
-                // |x - x_0| beyond 2.6234 * k_0 * a * 0.9983 = 1.67e7 * k_0
-                "tmerc" | "utm" => {
-                    let dx = sgn(u[2]) * [lerp(u[0], 1.9e7, 4.0e7), lerp(u[0], 4.0e7, 1.0e9)][split(u[3], 2).0] * scale;
-                    (planar((x0 + dx, y0 + lerp(u[1], -1.0e7, 1.0e7))), Cls::Far, false)
-                }
                 // beyond the disc of radius 2 * Rq = 1.274e7 m
                 "laea" => {
                     let r = [lerp(u[0], 1.5e7, 4.0e7), lerp(u[0], 4.0e7, 1.0e9)][split(u[3], 2).0];
@@ -787,7 +825,6 @@ fn gen_proj(cfg: &OpCfg, fwd: bool, sel: u8, u: &[f64; 6]) -> (P4, Cls, bool) {
             },
             6 => {
                 let p = match fam {
-                    "tmerc" | "utm" => (x0 + sgn(u[2]) * lerp(u[0], 1.0e7, 1.9e7) * scale, y0 + lerp(u[1], -1.0e7, 1.0e7)),
                     "laea" => {
                         let (r, az) = (lerp(u[0], 1.1e7, 1.5e7), u[1] * 2.0 * PI);
                         (x0 + r * az.sin(), y0 + r * az.cos())
@@ -1479,18 +1516,200 @@ fn check_pipe(case: &PipeCase, rec: &mut Rec) -> CaseResult {
     Ok(())
 }
 
+// ---- false origin / central meridian shift: the counted / NaN pattern must move with the origin ----
+
+#[derive(Clone, Debug, Serialize, Deserialize)]
+struct ShiftCase {
+    fam: String,
+    /// the operator with x_0 = y_0 = 0 (inverse) resp. lon_0 = 0 (forward)
+    zero: String,
+    /// the same operator with x_0 = a, y_0 = b resp. lon_0 = L
+    shifted: String,
+    fwd: bool,
+    a: F,
+    b: F,
+    lon0: F,
+    /// unshifted inputs: (x - x_0, y - y_0, z, t) for the inverse, (lon - lon_0, lat, z, t) forward
+    pts: Vec<P4>,
+}
+
+const SHIFT_FAMILIES: [&str; 9] = ["tmerc", "utm", "btmerc", "butm", "merc", "lcc", "laea", "somerc", "omerc"];
+
+fn build_shift(f: u16, v: &[u16; 4], vf: &[f64; 4], fwd: bool, raw: &[RawTup]) -> ShiftCase {
+    let fam = SHIFT_FAMILIES[pick(f, SHIFT_FAMILIES.len())];
+    let ell = ELL[pick(v[0], ELL.len())];
+    let r2 = |x: f64| (x * 100.0).round() / 100.0;
+    let mut a = [0.0, 500000.0, -3.0e6, r2(lerp(vf[0], -5.0e6, 5.0e6))][pick(v[1], 4)];
+    let mut b = [0.0, 1.0e7, -2.5e6, r2(lerp(vf[1], -5.0e6, 5.0e6))][pick(v[2], 4)];
+    let mut lon0 = [9.0, -123.5, 177.0, r2(lerp(vf[2], -180.0, 180.0))][pick(v[3], 4)];
+    // omerc has no lon_0, utm/butm no free parameters: inverse direction only
+    let fwd = fwd && !matches!(fam, "omerc" | "utm" | "butm");
+    let k = [1.0, 0.9996, 0.9999][split(vf[3], 3).0];
+    // (base definition without lon_0 / x_0 / y_0, a limit in metres around which inverse inputs are drawn)
+    let rr = rectifying_radius(ell);
+    let (base, limit): (String, f64) = match fam {
+        "tmerc" => (format!("tmerc lat_0={} k_0={k} ellps={ell}", [0.0, 40.0, -33.0][split(vf[3], 3).0]), TMERC_STRIP_LIMIT * k * rr),
+        "btmerc" => (format!("btmerc k_0={k} ellps={ell}"), TMERC_STRIP_LIMIT * k * rr),
+        "utm" | "butm" => (String::new(), TMERC_STRIP_LIMIT * 0.9996 * rr),
+        "merc" => (format!("merc k_0={k} ellps={ell}"), 2.0e7),
+        "lcc" => (
+            format!("{} ellps={ell}", ["lcc lat_1=57", "lcc lat_1=33 lat_2=45 lat_0=39", "lcc lat_1=-35", "lcc lat_1=-20 lat_2=-50 lat_0=-30 k_0=0.99"][split(vf[3], 4).0]),
+            1.0e7,
+        ),
+        // disc radius 2 Rq, Rq = authalic radius (about 0.99888 a)
+        "laea" => (format!("laea lat_0={} ellps={ell}", [52.0, -37.5, 90.0, -90.0, 0.0, 12.25][split(vf[3], 6).0]), 2.0 * 0.998_88 * rr / 0.998_32),
+        "somerc" => (format!("somerc lat_0={} k_0={k} ellps={ell}", [46.9524055555556, -30.0, 47.14][split(vf[3], 3).0]), 1.0e7),
+        _ => (
+            ["omerc ellps=GRS80 latc=45 lonc=10 alpha=30 gamma_c=30 k_0=0.9996", "omerc ellps=evrstSS variant latc=4 lonc=115 k_0=0.99984 alpha=53:18:56.9537 gamma_c=53:07:48.3685", "omerc ellps=intl latc=-18.9 lonc=44.1 alpha=18.9 k_0=0.9995"][split(vf[3], 3).0]
+                .to_string(),
+            1.0e7,
+        ),
+    };
+    let (zero, shifted) = match fam {
+        "utm" | "butm" => {
+            let zone = 1 + pick(v[3], 60);
+            let south = v[2] % 2 == 1;
+            a = 500000.0;
+            b = if south { 1.0e7 } else { 0.0 };
+            lon0 = -183.0 + 6.0 * zone as f64;
+            let plain = if fam == "utm" { "tmerc" } else { "btmerc" };
+            (format!("{plain} lon_0={lon0} k_0=0.9996 x_0=0 y_0=0 ellps={ell}"), format!("{fam} zone={zone}{} ellps={ell}", if south { " south" } else { "" }))
+        }
+        "omerc" => (format!("{base} x_0=0 y_0=0"), format!("{base} x_0={a} y_0={b}")),
+        _ if fwd => (format!("{base} lon_0=0 x_0={a} y_0={b}"), format!("{base} lon_0={lon0} x_0={a} y_0={b}")),
+        _ => (format!("{base} lon_0={lon0} x_0=0 y_0=0"), format!("{base} lon_0={lon0} x_0={a} y_0={b}")),
+    };
+    let pts = raw
+        .iter()
+        .map(|(sel, u, _)| {
+            let (z, t) = (zsel(u[4]), tsel(u[5]));
+            if fwd {
+                let (dlon, lat): (f64, f64) = match sel {
+                    // around the forward strip limit of tmerc, the opposite pole of lcc, the antipode of laea
+                    0..=3 => (sgn(u[2]) * lerp(u[0], 70.0, 95.0).to_radians(), lerp(u[1], -12.0, 12.0).to_radians()),
+                    4 => (lerp(u[0], -PI, PI), sgn(u[2]) * (FRAC_PI_2 - [0.0, 5.0e-11, 2.0e-10, 1.0e-6][split(u[1], 4).0])),
+                    5 => (sgn(u[2]) * (PI - lerp(u[0], 0.0, 0.02)), lerp(u[1], -FRAC_PI_2, FRAC_PI_2)),
+                    _ => (lerp(u[0], -PI, PI), lerp(u[1], -FRAC_PI_2, FRAC_PI_2)),
+                };
+                p4(dlon, lat, z, t)
+            } else {
+                let side = sgn(u[2]);
+                let (k, r) = split(u[3], 8);
+                let eps = lerp(r, -1.0e-3, 1.0e-3);
+                let (x, y): (f64, f64) = match (sel, k) {
+                    // densely around the limit: 0.8 .. 1.2 of it, both sides
+                    (0..=3, _) => (side * limit * lerp(u[0], 0.8, 1.2), lerp(u[1], -1.0e7, 1.0e7)),
+                    // around limit -+ |x_0| (reduced easting) and around the limit in the raw easting
+                    (4 | 5, 0..=3) => (side * (limit + sgn(r) * a.abs()) * (1.0 + eps), lerp(u[1], -1.0e7, 1.0e7)),
+                    (4 | 5, _) => (side * limit * (1.0 + eps) - a, lerp(u[1], -1.0e7, 1.0e7)),
+                    // the same on a circle (laea disc) and relative to y_0
+                    (6, _) => {
+                        let (rad, az) = (limit * lerp(u[0], 0.8, 1.2), u[1] * 2.0 * PI);
+                        (rad * az.sin(), rad * az.cos())
+                    }
+                    (7, _) => {
+                        let (rad, az) = ((limit + side * a.hypot(b)) * (1.0 + eps), u[1] * 2.0 * PI);
+                        (rad * az.sin(), rad * az.cos())
+                    }
+                    _ => (lerp(u[0], -3.0e7, 3.0e7), lerp(u[1], -3.0e7, 3.0e7)),
+                };
+                p4(x, y, z, t)
+            }
+        })
+        .collect();
+    ShiftCase { fam: fam.to_string(), zero, shifted, fwd, a: F(a), b: F(b), lon0: F(lon0), pts }
+}
+
+fn shift_strategy() -> impl Strategy<Value = ShiftCase> {
+    (
+        any::<u16>(),
+        [any::<u16>(), any::<u16>(), any::<u16>(), any::<u16>()],
+        [unit(), unit(), unit(), unit()],
+        any::<bool>(),
+        prop::collection::vec(raw_tup(), 1..=16),
+    )
+        .prop_map(|(f, v, vf, fwd, raw)| build_shift(f, &v, &vf, fwd, &raw))
+}
+
+/// (count, which elements are NaN) of a singleton application
+fn pattern(ctx: &GridCtx, op: OpHandle, fwd: bool, c: Coor4D, what: &str) -> Result<(usize, [bool; 4], Coor4D), Failure> {
+    let mut d = vec![c];
+    let n = run_apply(ctx, op, fwd, &mut d, what)?;
+    Ok((n, [d[0][0].is_nan(), d[0][1].is_nan(), d[0][2].is_nan(), d[0][3].is_nan()], d[0]))
+}
+
+fn check_shift(case: &ShiftCase, rec: &mut Rec) -> CaseResult {
+    let mut ctx = new_ctx(&None)?;
+    let mut inst = |def: &str| -> Result<OpHandle, Failure> {
+        match try_op(&mut ctx, def) {
+            Err(p) => Err(Failure { key: format!("panic-instantiate@{}", p.sig()), msg: format!("instantiating '{def}' panics: {} at {}:{}", p.msg, p.file, p.line) }),
+            Ok(Err(e)) => Err(Failure { key: format!("catalogue-definition-rejected@{}", case.fam), msg: format!("catalogue definition '{def}' rejected: {e:?}") }),
+            Ok(Ok(op)) => Ok(op),
+        }
+    };
+    let op0 = inst(&case.zero)?;
+    let op1 = inst(&case.shifted)?;
+    let dir = dirname(case.fwd);
+    rec.class(&format!("{}-{dir}", case.fam));
+    let (a, b, l0) = (case.a.0, case.b.0, case.lon0.0.to_radians());
+    let mut differing_outcomes = [false; 2];
+    for p in &case.pts {
+        // the shifted input, and the unshifted one recomputed by the very subtraction the operator
+        // performs (x - x_0, y - y_0, lon - lon_0): both operators then see bit-identical reduced values
+        let (in1, in0) = if case.fwd {
+            let lon1 = l0 + p[0].0;
+            (Coor4D([lon1, p[1].0, p[2].0, p[3].0]), Coor4D([lon1 - l0, p[1].0, p[2].0, p[3].0]))
+        } else {
+            let (x1, y1) = (p[0].0 + a, p[1].0 + b);
+            (Coor4D([x1, y1, p[2].0, p[3].0]), Coor4D([x1 - a, y1 - b, p[2].0, p[3].0]))
+        };
+        let (n0, nan0, out0) = pattern(&ctx, op0, case.fwd, in0, &case.zero)?;
+        // guard: the outcome of the unshifted operator must not change in a tiny neighbourhood
+        // (tmerc's northing goes through a precomputed offset, not through y - y_0)
+        let mut stable = true;
+        for (sx, sy) in [(1.0, 0.0), (-1.0, 0.0), (0.0, 1.0), (0.0, -1.0)] {
+            let mut q = in0;
+            let (hx, hy) = if case.fwd { (1.0e-9, 1.0e-9) } else { (1.0e-9 * q[0].abs() + 1.0e-3, 1.0e-9 * q[1].abs() + 1.0e-3) };
+            q[0] += sx * hx;
+            q[1] += sy * hy;
+            let (nq, nanq, _) = pattern(&ctx, op0, case.fwd, q, &case.zero)?;
+            stable &= nq == n0 && nanq == nan0;
+        }
+        if !stable {
+            rec.count("excluded_unstable_neighbourhood", 1);
+            continue;
+        }
+        let (n1, nan1, out1) = pattern(&ctx, op1, case.fwd, in1, &case.shifted)?;
+        differing_outcomes[n0.min(1)] = true;
+        rec.count(if n0 == 0 { "points_rejected_by_both" } else { "points_accepted_by_both" }, 1);
+        vensure!(
+            n0 == n1 && nan0 == nan1,
+            format!("shift-pattern-differs@{}-{dir}", case.fam),
+            "the counted / NaN pattern does not move with the {}:\n '{}' ({dir}) on {} -> count {n0}, {}\n '{}' ({dir}) on {} -> count {n1}, {}\n (second input = first input shifted by {})",
+            if case.fwd { "central meridian" } else { "false origin" },
+            case.zero, fmt_c4(&in0), fmt_c4(&out0), case.shifted, fmt_c4(&in1), fmt_c4(&out1),
+            if case.fwd { format!("lon_0 = {}°", case.lon0.0) } else { format!("(x_0, y_0) = ({a}, {b})") }
+        );
+    }
+    if differing_outcomes[0] && differing_outcomes[1] {
+        rec.nontrivial(&(&case.shifted, case.fwd, case.pts.iter().map(|p| [p[0].0.to_bits(), p[1].0.to_bits()]).collect::<Vec<_>>()));
+    }
+    Ok(())
+}
+
 // ---- main ----------------------------------------------------------------------------------------
 
 const GRID_FAMILIES: [&str; 3] = ["gridshift", "deflection", "deformation"];
 
 fn main() {
     let mut run = Run::init("C10");
-    run.assume("domain classes: 'Interior' is the documented domain conservatively shrunk (tmerc/utm: |lon-lon_0|<=60°, |lat|<=89°; btmerc: 3°; merc: |lat|<=85°; lcc: up to 89° on the cone side and 60° beyond the equator; laea: within 150° of the centre; omerc/somerc: 3° around the centre; grids: inside the nominal bounds shrunk by 0.1 cell + 0.01°; cart inv: geocentric radius 6.34e6..2e7 m incl. the axis; geodesic: |lat|<=89°, 1 m..19000 km, inverse separation 0.001°..170°); 'Far' only where the code declares a limit (tmerc strip: normalised easting > 2.6234, taken at |lat|<=3° and 87..93° from the central meridian, or |x-x_0| > 1.9e7·k_0 m; laea disc: > 1.5e7 m from the false origin; lcc: the pole opposite the apex within the operator's 1e-10 rad; grids: more than 0.8 cell beyond the border, the half-cell margin being coverage); everything else gets only count<=len, 'uncounted => NaN', untouched axes and NaN propagation");
+    run.assume("domain classes: 'Interior' is the documented domain conservatively shrunk (tmerc/utm: |lon-lon_0|<=60°, |lat|<=89°; btmerc: 3°; merc: |lat|<=85°; lcc: up to 89° on the cone side and 60° beyond the equator; laea: within 150° of the centre; omerc/somerc: 3° around the centre; grids: inside the nominal bounds shrunk by 0.1 cell + 0.01°; cart inv: geocentric radius 6.34e6..2e7 m incl. the axis; geodesic: |lat|<=89°, 1 m..19000 km, inverse separation 0.001°..170°); 'Far' only where the code declares a limit (tmerc strip: normalised easting > 2.6234, taken at |lat|<=3° and 87..93° from the central meridian, the inverse limit is asserted directly from the source's constant: |x-x_0| <= 2.623395162778·k_0·a·Qn·(1-1e-9) must be counted and finite, >= ·(1+1e-9) NaN-marked and uncounted, on both sides, for x_0 in {0, 500000, -3e6, -20000} and every utm zone, Qn from the published a, 1/f; laea disc: > 1.5e7 m from the false origin; lcc: the pole opposite the apex within the operator's 1e-10 rad; grids: more than 0.8 cell beyond the border, the half-cell margin being coverage); everything else gets only count<=len, 'uncounted => NaN', untouched axes and NaN propagation");
     run.assume("inverse-direction interior tuples of plane projections are images of interior geographic points under the library's own forward (so they are in the operator's range whatever its formulas); if that forward pre-step fails the tuple is skipped here and judged by the forward cases");
     run.assume("counting a NaN-in/NaN-out tuple as a success is not flagged; a NaN-free tuple outside the Interior class that is counted although its result carries NaN is only tallied (counter nanfree_in_nan_out_but_counted)");
     run.assume("no infinities are generated (IEEE hypot(inf, NaN) = inf would make the NaN clause unsound); an epoch of -0.0 is not generated for `deformation` (it adds +0.0 to the fourth element, so -0.0 would come back as +0.0: pedantic, excluded by construction)");
     run.assume("dependency table transcribed from the sources; left out: deflection with @null and a NaN position (undocumented), deformation with @null (pass-through: identity only), the epoch dependency of deformation with @null; geodesic/gravity/curvature/deflection (look-up helpers) are exempt from the untouched-axes clause; deformation `raw` replaces the fourth element by design");
     run.assume("stand-alone push/pop/stack steps act only inside a pipeline: reporting 0 with the data untouched is accepted for them; pipelines containing a one-way operator are only checked for count = min over the steps (data legitimately stays finite)");
+    run.assume("origin-shift: the unshifted input is recomputed with the subtraction the operator itself performs (x - x_0, y - y_0, lon - lon_0), so both operators see bit-identical reduced values; points where the unshifted operator's outcome changes within 1e-9 relative (+1 mm) / 1e-9 rad are excluded (counter excluded_unstable_neighbourhood); only the pattern (count, which elements are NaN) is compared, values belong to C13");
     run.assume("pipeline count is compared with the minimum over the counts of the same steps instantiated stand-alone and applied one after the other to the same data (omit_* modifiers and macros belong to C03/C04)");
 
     // operators the catalogue does not know
@@ -1553,6 +1772,16 @@ fn main() {
         n,
         pipe_strategy,
         check_pipe,
+    );
+
+    // 5. the failure pattern moves with the false origin / central meridian
+    let n = run.scale(20_000, 300_000);
+    run.section(
+        "origin-shift",
+        "metamorphic: P(x_0=a, y_0=b) inverse on input + (a, b) and P(x_0=0, y_0=0) inverse on the input must count / NaN-mark the same tuples (tmerc, btmerc, merc, lcc, laea, somerc, omerc; utm/butm against the plain t-merc they are defined by), inputs dense in 0.8..1.2 of the declared limit on both sides, around limit -+ |x_0| and around the limit taken in the raw easting, a in {0, 500000, -3e6, random}; likewise forward P(lon_0=L) on lon + L versus P(lon_0=0); non-trivial = case containing both an accepted and a rejected point",
+        n,
+        shift_strategy,
+        check_shift,
     );
 
     run.finish("invariants on (count, before, after) of Context::apply for every built-in operator in each direction, per tuple (singleton application) and per batch, over generated tuples inside / at the edge of / beyond the declared domain with NaN in all 16 subsets of elements, plus pipelines with failing steps against min over stand-alone step counts");
